@@ -144,7 +144,7 @@ def conjuncts_of_contains(f: Func, index: Optional[RepoIndex] = None) -> Tuple[L
     return out, p
 
 
-def classify_facet(c: ast.AST, kind: str) -> Optional[str]:
+def classify_facet(c: ast.AST, kind: str, index=None) -> Optional[str]:
     s = src(c)
     if isinstance(c, ast.Compare) and len(c.ops) == 1 and isinstance(c.ops[0], ast.Eq):
         sides = {src(c.left), src(c.comparators[0])}
@@ -152,24 +152,15 @@ def classify_facet(c: ast.AST, kind: str) -> Optional[str]:
             return 'shape'
     if isinstance(c, ast.Call) and isinstance(c.func, ast.Attribute) and \
             c.func.attr == 'issubset' and len(c.args) == 1:
-        recv, arg = src(c.func.value), src(c.args[0])
-        if recv == 'X.grid.object_types()' and arg == (
-                'self.object_types' if kind == 'state' else 'self._grid_object_types'):
-            return 'types'
-        if arg == 'self.colors' and isinstance(c.func.value, ast.Call) and \
-                src(c.func.value.func) in ('set', 'frozenset') and c.func.value.args:
-            g = c.func.value.args[0]
-            if isinstance(g, (ast.GeneratorExp, ast.ListComp, ast.SetComp)) and \
-                    len(g.generators) == 1 and not g.generators[0].ifs and \
-                    src(g.generators[0].iter) in ('X.grid.area.positions()',
-                                                  "X.grid.area.positions('all')") and \
-                    src(g.elt) == f'X.grid[{src(g.generators[0].target)}].color':
-                return 'colors'
-        if arg == 'self.colors' and isinstance(c.func.value, ast.SetComp):
-            g = c.func.value
-            if len(g.generators) == 1 and not g.generators[0].ifs and \
-                    src(g.generators[0].iter) == 'X.grid.area.positions()' and \
-                    src(g.elt) == f'X.grid[{src(g.generators[0].target)}].color':
+        arg = src(c.args[0])
+        from ..cellimage import cells_image
+        img = cells_image(index, c.func.value) if index is not None else None
+        if img is not None and img[0] == 'X.grid':
+            elt = src(img[1])
+            if elt == 'type(O)' and arg == ('self.object_types' if kind == 'state'
+                                            else 'self._grid_object_types'):
+                return 'types'
+            if elt == 'O.color' and arg == 'self.colors':
                 return 'colors'
     if s == 'X.grid.area.contains(X.agent.position)':
         return 'position'
@@ -195,13 +186,13 @@ def membership(index: RepoIndex, rep, rule: str) -> None:
         conj, p = conjuncts_of_contains(f, index)
         found: Dict[str, ast.AST] = {}
         for c in conj:
-            fac = classify_facet(c, kind)
+            fac = classify_facet(c, kind, index)
             if fac is None:
                 # second reading: an expression moved into a new method of another class
                 from ..inline import inline_methods_by_name
                 c2 = inline_methods_by_name(index, c, exclude=('contains', 'positions',
                                                                'object_types'))
-                fac = classify_facet(c2, kind)
+                fac = classify_facet(c2, kind, index)
                 if fac is not None:
                     c = c2
             if fac is None:
